@@ -4,6 +4,7 @@ package rig
 
 import (
 	"bytes"
+	"fmt"
 	"regexp"
 	"runtime"
 	"strings"
@@ -12,6 +13,7 @@ import (
 	"syscall"
 	"testing"
 	"testing/synctest"
+	"time"
 )
 
 var hdrRe = regexp.MustCompile(`^goroutine (\d+) \[([^\]]*)\]:`)
@@ -167,3 +169,94 @@ func othersBusy() bool {
 	}
 	return false
 }
+
+func stacksOf(marker string) map[string]string {
+	buf := make([]byte, 4<<20)
+	for {
+		n := runtime.Stack(buf, true)
+		if n < len(buf) {
+			buf = buf[:n]
+			break
+		}
+		buf = make([]byte, 2*len(buf))
+	}
+	out := map[string]string{}
+	for _, blk := range strings.Split(string(buf), "\n\n") {
+		if !strings.Contains(blk, marker) {
+			continue
+		}
+		lines := strings.SplitN(blk, "\n", 2)
+		m := hdrRe.FindStringSubmatch(lines[0])
+		if m == nil || len(lines) < 2 {
+			continue
+		}
+		state := strings.SplitN(m[2], ",", 2)[0]
+		out[m[1]] = state + "\n" + lines[1]
+	}
+	return out
+}
+
+func processCPU() int64 {
+	var ru syscall.Rusage
+	syscall.Getrusage(syscall.RUSAGE_SELF, &ru)
+	return (ru.Utime.Sec+ru.Stime.Sec)*1e6 + int64(ru.Utime.Usec+ru.Stime.Usec)
+}
+
+// Standstill is the proof rule for "this call will never return" on REAL time (never inside a
+// bubble).  The goroutines whose stack contains marker are sampled now and again after wait
+// (choose wait longer than every timer that exists in the scenario).  Proof: such a goroutine
+// is blocked - not running or runnable - inside library code, its stack (frames, arguments,
+// program counters) is byte-for-byte the same in both samples, the process as a whole used less
+// than 2 % of a core in between (nothing is working towards releasing it), and a heartbeat
+// goroutine of the harness kept running all the while (the process was not simply starved).
+// Returns a description of the blocked goroutine, or "" when there is no proof.
+func Standstill(marker string, wait time.Duration) string {
+	StandstillWhyNot = ""
+	before := stacksOf(marker)
+	if len(before) == 0 {
+		StandstillWhyNot = "no goroutine carries the marker"
+		return ""
+	}
+	var beats atomic.Int64
+	stop := make(chan struct{})
+	go func() {
+		for {
+			select {
+			case <-stop:
+				return
+			default:
+			}
+			beats.Add(1)
+			ts := syscall.Timespec{Nsec: 10_000_000}
+			syscall.Nanosleep(&ts, nil)
+		}
+	}()
+	c0 := processCPU()
+	ts := syscall.Timespec{Sec: int64(wait / 1e9), Nsec: int64(wait % 1e9)}
+	syscall.Nanosleep(&ts, nil)
+	cpu := processCPU() - c0
+	close(stop)
+	after := stacksOf(marker)
+	if cpu > int64(wait/1e3)/50 || beats.Load() < int64(wait/1e6)/40 {
+		StandstillWhyNot = fmt.Sprintf("process used %d ms of CPU time in %v, harness heartbeat ran %d times", cpu/1000, wait, beats.Load())
+		return ""
+	}
+	for g, st := range before {
+		if after[g] != st || !strings.Contains(st, "zishang520/engine.io/v2/") {
+			continue
+		}
+		state := strings.SplitN(st, "\n", 2)[0]
+		if strings.HasPrefix(state, "running") || strings.HasPrefix(state, "runnable") || strings.HasPrefix(state, "syscall") || strings.HasPrefix(state, "sleep") {
+			continue
+		}
+		return "goroutine " + g + " [" + TopFrames("goroutine "+g+" ["+state+"]:\n"+strings.SplitN(st, "\n", 2)[1], 12) + "]"
+	}
+	for g, st := range before {
+		a, ok := after[g]
+		StandstillWhyNot += fmt.Sprintf("goroutine %s: still there %v, same stack %v, state %q; ", g, ok, a == st, strings.SplitN(st, "\n", 2)[0])
+	}
+	return ""
+}
+
+// StandstillWhyNot says why the last Standstill call found no proof (diagnostics only).
+var StandstillWhyNot string
